@@ -41,7 +41,7 @@ def run(chk, replay=None):
     with concurrent.futures.ThreadPoolExecutor(max_workers=1) as bg:
         # 1. design level: Unescape(Escape(s)) = s and no markup token in Escape(s), all class strings up to the bound
         mc_cfg = "Codec.cfg" if quick else "Codec4.cfg"
-        mc_f = bg.submit(vf.tlc_mc, "Codec.tla", mc_cfg, cc.PROCS)
+        mc_f = bg.submit(vf.tlc_mc, "Codec.tla", mc_cfg, cc.TLC_WORKERS)
         if replay:
             jobs = [j for j in vf.read_ndjson(replay) if "k" in j]
             gen = {}
